@@ -133,6 +133,191 @@ def qbits_scenario(prop, kn, sym, alpha_kind, use_ste):
   return scenario
 
 
+# ------------------------------------------------- generic clause generator
+def rnd_axiom(ip, p):
+  ip.assume(z3.And(z3.ToReal(RND(p)) - p <= half(), p - z3.ToReal(RND(p)) <= half()))
+
+
+def generic_scenario(prop, build, idem=True, enclosed=True):
+  """build(ip, s) -> (q, spec) where spec(x_expr) -> dict(value=, k=, p=, lo=, hi=, unit=, hints=[...])
+  describing the format's code for input x: value = unit * k, k = clip(rnd(p), lo, hi)."""
+  def scenario(ip):
+    s = Scen()
+    q, spec = build(ip, s)
+    x = Q.tensor("x")
+    s.vars["x"] = x.e
+    r = Q.call(ip, q, x)
+    s.claim("no_raise", r[0] == "return")
+    if r[0] != "return":
+      s.info["raised"] = str(r[1])
+      return s
+    ret = Q.value(r)
+    sp = spec(ip, x.e)
+    s.hints.extend(sp.get("hints", []))
+    s.cong.extend(sp.get("cong", []))
+    if "int_code" in sp:
+      # the smallest leaky code -slope*2^n must itself be an integer code
+      s.claim("int_code", sp["int_code"])
+    s.vars.update({"p": sp["p"], "k": sp["k"]})
+    s.claim("code", ret == sp["value"])
+    k, p, lo, hi = sp["k"], sp["p"], sp["lo"], sp["hi"]
+    kr = R(k)
+    if prop == "C02":
+      s.claim("nearest", z3.Implies(z3.And(R(lo) <= p, p <= R(hi)),
+                                    z3.And(kr - p <= half(), p - kr <= half())))
+      if "sat_lo" not in sp.get("skip", ()):
+        s.claim("sat_lo", z3.Implies(p < R(lo), kr == R(lo)))
+      s.claim("sat_hi", z3.Implies(p > R(hi), kr == R(hi)))
+      x2 = Q.tensor("x2")
+      s.vars["x2"] = x2.e
+      r2 = Q.call(ip, q, x2)
+      if r2[0] == "return":
+        sp2 = spec(ip, x2.e)
+        s.cong.extend(sp2.get("cong", []))
+        s.mono.extend([(kr, R(sp2["k"]), sp["unit"]), (R(sp2["k"]), kr, sp["unit"])])
+        s.mono.extend(sp.get("mono2", lambda a, b: [])(x.e, x2.e))
+        s.claim("mono", z3.Implies(x.e <= x2.e, ret <= Q.value(r2)))
+      else:
+        s.claim("mono", False)
+      if idem:
+        r3 = Q.call(ip, q, SNum(ret, "tensor", None, {"shape": (1,)}))
+        s.claim("idem", r3[0] == "return" and Q.value(r3) == ret)
+    if prop == "C01" and enclosed:
+      mx = Q.method(ip, q, "max")
+      mn = Q.method(ip, q, "min")
+      if mx[0] == "return" and mn[0] == "return":
+        s.mono.extend([(kr, R(hi), sp["unit"]), (R(lo), kr, sp["unit"])])
+        s.claim("enclosed", z3.And(Q.num_value(mn[1]) <= ret, ret <= Q.num_value(mx[1])))
+      else:
+        s.info["raised"] = "max/min raised: %s %s" % (mx[1], mn[1])
+        s.claim("enclosed", False)
+    return s
+  return scenario
+
+
+# ------------------------------------------------------------ quantized_relu
+def qrelu_build(slope, use_ste):
+  def build(ip, s):
+    bits, integer = z3.Int("bits"), z3.Int("integer")
+    s.vars.update({"bits": bits, "integer": integer})
+    sgn = 1 if slope else 0
+    ip.assume(z3.And(bits - sgn >= 1, integer >= 0))
+    q = ip.call(Q.qcls(ip, "quantized_relu"), [SNum(bits), SNum(integer), 0, slope], {"use_ste": use_ste})
+    n = bits - sgn
+    s.replay = {"class": "quantized_relu", "kwargs": {"bits": bits, "integer": integer, "use_sigmoid": 0,
+                                                      "negative_slope": slope, "use_ste": use_ste},
+                "format": {"step": P(integer - n), "probe": -4 * P(integer)}}
+
+    def spec(ip_, x):
+      p = x * P(n - integer)
+      rnd_axiom(ip_, p)
+      hi = I.IPOW2(n) - 1
+      kpos = clipz(RND(p), z3.IntVal(0), hi)
+      hints = [n, integer, n - integer, integer - n]
+      if not slope:
+        return dict(value=z3.ToReal(kpos) * P(integer - n), k=kpos, p=p, lo=z3.IntVal(0), hi=hi,
+                    unit=P(integer - n), hints=hints)
+      sl = zreal(slope)
+      ps = I.mul_norm(p, sl)
+      rnd_axiom(ip_, ps)
+      lo = -sl * z3.ToReal(I.IPOW2(n))          # -slope * 2^n  (an integer: slope is 2^-j, j <= n assumed)
+      kneg = clipz(z3.ToReal(RND(ps)), lo, z3.RealVal(0))
+      k = z3.ToReal(kpos) + kneg
+      # the leaky surrogate in code units: p for x >= 0, slope*p for x < 0
+      psur = z3.If(x >= 0, p, ps)
+      j = int(round(-__import__("math").log2(slope)))
+      return dict(value=k * P(integer - n), k=k, p=psur, lo=lo, hi=hi, unit=P(integer - n),
+                  hints=hints + [n - integer - j, n - 1, n - 2],
+                  cong=[(x, P(n - integer), z3.RealVal(2 ** j) * P(n - integer - j))],
+                  int_code=(n >= j), skip=("sat_lo",))
+    return q, spec
+  return build
+
+
+# ---------------------------------------------------------- quantized_linear
+def qlinear_build(kn, sym, alpha_kind):
+  def build(ip, s):
+    bits, integer = z3.Int("bits"), z3.Int("integer")
+    s.vars.update({"bits": bits, "integer": integer})
+    ip.assume(z3.And(bits - int(kn) >= 1, integer >= 0))
+    alpha, a = None, z3.RealVal(1)
+    if alpha_kind == "const":
+      a = z3.Real("alpha")
+      s.vars["alpha"] = a
+      ip.assume(a > 0)
+      alpha = SNum(a, "float")
+    q = ip.call(Q.qcls(ip, "quantized_linear"), [SNum(bits), SNum(integer), sym, kn, alpha], {})
+    n = bits - int(kn)
+    s.replay = {"class": "quantized_linear", "kwargs": {"bits": bits, "integer": integer, "symmetric": sym,
+                                                        "keep_negative": bool(kn), "alpha": None if alpha is None else a}}
+
+    def spec(ip_, x):
+      unit = a * P(integer - n)
+      p = x * P(n - integer) / a if alpha is not None else x * P(n - integer)
+      rnd_axiom(ip_, p)
+      lo = -int(kn) * (I.IPOW2(n) - int(sym))
+      hi = I.IPOW2(n) - 1
+      k = clipz(RND(p), lo, hi)
+      return dict(value=unit * z3.ToReal(k), k=k, p=p, lo=lo, hi=hi, unit=unit,
+                  hints=[n, integer, n - integer, integer - n])
+    return q, spec
+  return build
+
+
+# ------------------------------------------------------ tanh / sigmoid
+def qtanh_build(sym, real):
+  def build(ip, s):
+    bits = z3.Int("bits")
+    s.vars["bits"] = bits
+    ip.assume(bits >= 2)
+    q = ip.call(Q.qcls(ip, "quantized_tanh"), [SNum(bits), False, sym, real], {})
+    n = bits - 1
+    s.replay = {"class": "quantized_tanh", "kwargs": {"bits": bits, "symmetric": bool(sym), "use_real_tanh": real}}
+
+    def spec(ip_, x):
+      if real:
+        t = z3.Function("tanh", z3.RealSort(), z3.RealSort())(x)
+      else:
+        t = 2 * clipz(z3.RealVal("1/2") * x + z3.RealVal("1/2"), z3.RealVal(0), z3.RealVal(1)) - 1
+      p = t * z3.ToReal(I.IPOW2(n))
+      rnd_axiom(ip_, p)
+      lo = -I.IPOW2(n) + int(sym)
+      hi = I.IPOW2(n) - 1
+      k = clipz(RND(p), lo, hi)
+      out = dict(value=z3.ToReal(k) * P(-n), k=k, p=p, lo=lo, hi=hi, unit=P(-n), hints=[n, -n])
+      if real:
+        f = z3.Function("tanh", z3.RealSort(), z3.RealSort())
+        out["mono2"] = lambda a, b: []
+        out["surrogate_mono"] = f
+      return out
+    return q, spec
+  return build
+
+
+def qsigmoid_build(sym, real):
+  def build(ip, s):
+    bits = z3.Int("bits")
+    s.vars["bits"] = bits
+    ip.assume(bits >= 1)
+    q = ip.call(Q.qcls(ip, "quantized_sigmoid"), [SNum(bits), sym, real], {})
+    n = bits
+    s.replay = {"class": "quantized_sigmoid", "kwargs": {"bits": bits, "symmetric": bool(sym), "use_real_sigmoid": real}}
+
+    def spec(ip_, x):
+      if real:
+        t = z3.Function("sigmoid", z3.RealSort(), z3.RealSort())(x)
+      else:
+        t = clipz(z3.RealVal("1/2") * x + z3.RealVal("1/2"), z3.RealVal(0), z3.RealVal(1))
+      p = t * z3.ToReal(I.IPOW2(n))
+      rnd_axiom(ip_, p)
+      lo = z3.IntVal(int(sym))
+      hi = I.IPOW2(n) - 1
+      k = clipz(RND(p), lo, hi)
+      return dict(value=z3.ToReal(k) * P(-n), k=k, p=p, lo=lo, hi=hi, unit=P(-n), hints=[n, -n])
+    return q, spec
+  return build
+
+
 def bounds(vars_):
   cs = []
   for k, v in vars_.items():
@@ -153,4 +338,19 @@ def cases(tier, prop="C01"):
           out.append(Case(prop, TGT + "quantized_bits.__call__", name,
                           qbits_scenario(prop, kn, sym, ak, ste), bounds=bounds,
                           replay_kind="q_fixed", assumptions=ASSUME, lo=-12, hi=12))
+  def add(target, name, build, **kw):
+    out.append(Case(prop, TGT + target, name, generic_scenario(prop, build, **kw), bounds=bounds,
+                    replay_kind="q_fixed", assumptions=ASSUME, lo=-12, hi=12))
+  for slope in (0.0, 0.25):
+    for ste in (True, False):
+      add("quantized_relu.__call__", "slope%s_%s" % (str(slope).replace(".", "p"), "ste" if ste else "noste"),
+          qrelu_build(slope, ste), idem=(slope == 0.0))
+  for kn in (True, False):
+    for sym in (0, 1):
+      for ak in ("none", "const"):
+        add("quantized_linear.__call__", "kn%d_sym%d_alpha%s" % (kn, sym, ak), qlinear_build(kn, sym, ak))
+  for sym in (0, 1):
+    for real in (False, True):
+      add("quantized_tanh.__call__", "sym%d_%s" % (sym, "real" if real else "hard"), qtanh_build(sym, real), idem=False)
+      add("quantized_sigmoid.__call__", "sym%d_%s" % (sym, "real" if real else "hard"), qsigmoid_build(sym, real), idem=False)
   return out
